@@ -389,6 +389,16 @@ pub fn check_case(c: &Case, label: &str) -> CaseResult {
             }
             composite |= v.is_cons() || v.is_vector();
             visited += check_ref(d.as_ref(), v, 0).map_err(|(s, m)| (format!("accessor={}", s), m))?;
+            // owned copies expose the same structure through the same accessors
+            if v.is_cons() || v.is_vector() {
+                let copy = d.clone();
+                check_ref(copy.as_ref(), v, 0).map_err(|(s, m)| (format!("accessor={} on=clone", s), m))?;
+                let owned = lexpr::Datum::from(d.as_ref());
+                check_ref(owned.as_ref(), v, 0).map_err(|(s, m)| (format!("accessor={} on=Datum::from(Ref)", s), m))?;
+                if copy != *d || owned != *d {
+                    return Err(("copy-not-equal".into(), "a clone of the datum (or Datum::from(Ref)) is not equal to the datum".into()));
+                }
+            }
         }
         let mut classes: Vec<&'static str> = vec![match src {
             "str" => "src:str",
